@@ -43,7 +43,7 @@ Check C12_any_history : forall c fs, ucase_wf c = true ->
 Print Assumptions C12_any_history.
 
 (* the premise of abstracting from time in this property's model: the code it models waits, polls and gives up
-   exactly where the model says (primitive codes in Proofs/W_*.v); re-extracted from the source on every run *)
+   with exactly the kinds of primitives the model accounts for (codes in Proofs/W_*.v); re-extracted from the source on every run *)
 Require Import GV.Gen.Consts GV.Proofs.W_engine GV.Proofs.W_hydraulic.
 Theorem C12_time_abstraction : waits_engine = (@nil Z) /\ waits_hydraulic = (@nil Z).
 Proof. exact (conj w_engine w_hydraulic). Qed.
